@@ -514,6 +514,10 @@ func (g *lgen) stmt() {
 			// amount read from the store
 			name := g.fresh("bal")
 			acct := rng.PickOf(g.r, g.cfg.Accounts)
+			if g.r.Chance(1, 8) {
+				acct = "world" // never requested from the store: reads as zero whatever the store holds
+				g.c.Tags["origin-world"] = true
+			}
 			fn := "balance"
 			if g.r.Chance(1, 3) {
 				fn = "overdraft"
@@ -615,6 +619,13 @@ func GenLedger(r *rng.R, cfg LCfg) *Case {
 				c.Balances[a] = map[string]*big.Int{}
 			}
 			c.Balances[a][as] = Balance(r, cfg.PBig, cfg.PNegBal)
+		}
+	}
+	// what the store happens to hold for @world must not matter
+	if r.Chance(1, 3) {
+		c.Balances["world"] = map[string]*big.Int{}
+		for _, as := range cfg.Assets {
+			c.Balances["world"][as] = new(big.Int).Neg(SmallOrBig(r, 20))
 		}
 	}
 	return c
